@@ -940,3 +940,82 @@ func ElementTypeKept(p *load.Prog, r *oblig.Report, rule string) {
 		r.Unknown(rule, construct, p.Pos(fn.Pos()), "no append to GenericTypes found in ExitConditionParameter")
 	}
 }
+
+// TablesOnlyGrow (C09, "accepted ⇒ every declaration is reflected"): while one document is walked, the tables
+// that record what was declared (relations of a type, parameters of a condition, conditions, extensions of a file)
+// only ever gain entries; an entry that is removed again makes the duplicate test of a later declaration pass.
+// Reported: delete / clear on a map that the listener holds (reachable from its receiver), in the callbacks and
+// in the helpers of their package.
+func TablesOnlyGrow(p *load.Prog, r *oblig.Report, rule string, funcs []*ssa.Function) {
+	maps, n := 0, 0
+	for _, f := range funcs {
+		if f.Pkg == nil || f.Pkg.Pkg.Name() != "transformer" {
+			continue
+		}
+		recv := ""
+		if f.Signature.Recv() != nil && len(f.Params) > 0 && strings.Contains(f.Params[0].Type().String(), "OpenFgaDslListener") {
+			recv = f.Params[0].Name()
+		}
+		for _, b := range f.Blocks {
+			for _, in := range b.Instrs {
+				if mu, ok := in.(*ssa.MapUpdate); ok && recv != "" && strings.HasPrefix(AccessPath(mu.Map), recv+".") {
+					maps++
+				}
+				call, ok := in.(ssa.CallInstruction)
+				if !ok {
+					continue
+				}
+				bi, ok := call.Common().Value.(*ssa.Builtin)
+				if !ok || (bi.Name() != "delete" && bi.Name() != "clear") || len(call.Common().Args) == 0 {
+					continue
+				}
+				m := call.Common().Args[0]
+				if _, isMap := m.Type().Underlying().(*types.Map); !isMap {
+					continue
+				}
+				pth := AccessPath(m)
+				held := recv != "" && strings.HasPrefix(pth, recv+".")
+				if !held {
+					// a helper that receives the table as a parameter: judged where the listener hands it over
+					if prm, ok := m.(*ssa.Parameter); ok {
+						for _, site := range callSitesOf(funcs, f) {
+							for i, q := range f.Params {
+								if q == prm && i < len(site.Common().Args) {
+									if cf := site.Parent(); cf != nil && cf.Signature.Recv() != nil && len(cf.Params) > 0 &&
+										strings.HasPrefix(AccessPath(site.Common().Args[i]), cf.Params[0].Name()+".") {
+										held, pth = true, AccessPath(site.Common().Args[i])
+									}
+								}
+							}
+						}
+					}
+				}
+				if !held {
+					continue
+				}
+				n++
+				r.Bad(rule, "table-shrinks:"+load.FuncName(f)+":"+pth, p.Pos(in.Pos()), bi.Name()+" on "+pth+": a declaration recorded earlier in the document is forgotten, so a later duplicate of it passes the check-before-insert test and is accepted")
+			}
+		}
+	}
+	switch {
+	case maps == 0:
+		r.Unknown(rule, "table-shrinks:anchor", "-", "no insert into a table held by the listener was found: anchors no longer resolve")
+	case n == 0:
+		r.OK(rule, "table-shrinks", "-", "no-delete-no-clear", fmt.Sprintf("%d insert sites, no delete or clear on a table the listener holds", maps))
+	}
+}
+
+func callSitesOf(funcs []*ssa.Function, callee *ssa.Function) []ssa.CallInstruction {
+	var out []ssa.CallInstruction
+	for _, f := range funcs {
+		for _, b := range f.Blocks {
+			for _, in := range b.Instrs {
+				if ci, ok := in.(ssa.CallInstruction); ok && ci.Common().StaticCallee() == callee {
+					out = append(out, ci)
+				}
+			}
+		}
+	}
+	return out
+}
